@@ -47,6 +47,12 @@ fn main() {
         args.prop = v["property"].as_str().unwrap_or("").to_string();
         args.evidence = None;
         args.replay_dir = std::path::PathBuf::from("/verif/replay/again");
+        if v["case"]["kind"] == "unguarded_panic" {
+            // the failing case is not known: re-run the sweep that tz-rs panicked in
+            args.tier = if v["case"]["tier"] == "thorough" { Tier::Thorough } else { Tier::Quick };
+            arm_safety_net(&args);
+            std::process::exit(run_engine(&args));
+        }
         match args.engine.as_str() {
             "cal" => cal::replay(&v["case"], &args),
             "nanos" => nanos::replay(&v["case"], &args),
@@ -75,40 +81,48 @@ fn main() {
         }
     } else {
         let args = Args::parse(&argv);
+        arm_safety_net(&args);
+        run_engine(&args)
+    };
+    std::process::exit(code);
+}
+
+fn run_engine(args: &Args) -> i32 {
+    let args = args;
+    {
         match args.engine.as_str() {
-            "cal" => cal::run(&args),
-            "nanos" => nanos::run(&args),
-            "fmt" => fmt::run(&args),
-            "table" => table::run(&args),
-            "rule" => rule::run(&args),
-            "rulecons" => rulecons::run(&args),
-            "find" => find::run(&args),
-            "leap" => leap::run(&args),
-            "zonecons" => zonecons::run(&args),
-            "dtinv" => dtinv::run(&args),
+            "cal" => cal::run(args),
+            "nanos" => nanos::run(args),
+            "fmt" => fmt::run(args),
+            "table" => table::run(args),
+            "rule" => rule::run(args),
+            "rulecons" => rulecons::run(args),
+            "find" => find::run(args),
+            "leap" => leap::run(args),
+            "zonecons" => zonecons::run(args),
+            "dtinv" => dtinv::run(args),
             #[cfg(feature = "tz-alloc")]
-            "tzstr" => tzstr::run(&args),
+            "tzstr" => tzstr::run(args),
             #[cfg(feature = "tz-alloc")]
-            "tzif" => tzif::run(&args),
+            "tzif" => tzif::run(args),
             #[cfg(feature = "tz-alloc")]
-            "resolve" => resolve::run(&args),
+            "resolve" => resolve::run(args),
             #[cfg(feature = "tz-alloc")]
-            "nopanic" => nopanic::run(&args),
+            "nopanic" => nopanic::run(args),
             #[cfg(feature = "tz-alloc")]
-            "nopanic-child" => nopanic::run_child(&args),
+            "nopanic-child" => nopanic::run_child(args),
             #[cfg(feature = "tz-std")]
-            "hist" => hist::run(&args),
+            "hist" => hist::run(args),
             #[cfg(feature = "tz-std")]
-            "hist-alone" => hist::run_alone(&args),
+            "hist-alone" => hist::run_alone(args),
             #[cfg(feature = "tz-alloc")]
-            "resolve-long" => resolve::run_long(&args),
+            "resolve-long" => resolve::run_long(args),
             #[cfg(feature = "tz-std")]
-            "dump" => dump::run(&args),
+            "dump" => dump::run(args),
             e => {
                 eprintln!("unknown engine {e}");
                 2
             }
         }
-    };
-    std::process::exit(code);
+    }
 }
